@@ -131,6 +131,17 @@ CHECKS = {
              "that an in-process assembly yields; 5% of the runs are cross-checked against a real subprocess.",
         note="Trusted: vf/ref/codecs.py (BK-0010 tape structure; turbo format by its documented constants), the path rules stated in the property.",
         design="4/C13"),
+    "C19": dict(
+        category="exploration",
+        technique="Hypothesis multi-file programs run through the CLI with --lst; the listing is parsed and compared with the reference assembler's symbol tables and with the image",
+        text="Programs of 1-3 files plus includes, whose labels are followed by unique marker words and whose constants take negative, "
+             "zero, boundary, > 16-bit and > 32-bit and tied values, are assembled through the CLI entry point with every output "
+             "selector. The .lst is parsed (file blocks, 'octal-value name' lines): names per file must equal the reference symbol table "
+             "exactly once each, values must be octal numerals of the reference values, lines ordered by (value, name), label values "
+             "must index their marker word in the image, and exactly one listing must appear beside an output file and named after it "
+             "(none without an output).",
+        note="Trusted: vf/model.py symbol tables; both readings of 'named after it with .lst' and both anchors (-o / first directive) are accepted.",
+        design="4/C19"),
     "C14": dict(
         category="exploration",
         technique="exhaustive enumeration (256 bytes, 0x110000 code points) + Hypothesis strings against Python's koi8-r/ASCII and the round-trip law",
